@@ -136,7 +136,10 @@ def pr(cmds,sep=" "):
         elif k=='v': out.append("v%d"%c[1])
         elif k=='q': out.append("q%d"%c[1])
         elif k=='t': out.append("t%d"%c[1])
-        elif k=='loop': out.append("[%d %s%s]"%(c[1],pr(c[2]),"" if c[3] is None else " : "+pr(c[3])))
+        elif k=='loop':
+            # blanks, tabs or a range comment may stand between '[' and the count (chosen deterministically from the loop's shape)
+            sp = ["", "", " ", "  ", "\t", " /*n*/ "][(c[1] * 7 + len(c[2]) * 3) % 6]
+            out.append("[%s%d %s%s]"%(sp,c[1],pr(c[2]),"" if c[3] is None else " : "+pr(c[3])))
         elif k=='sub': out.append("Sub{%s}"%pr(c[1]))
         elif k=='div': out.append(("{%s}%s" if len(c)<4 or c[3]=='{' else "Div{%s}%s")%(pr(c[1]),lenstr(c[2])))
         elif k=='chord':
@@ -218,6 +221,16 @@ def gen_cmds(r,depth,n,in_div=False,in_chord=False,top=False):
             out.append(('div',b,gen_len(r),r.choice(['{','{','D'])))
         elif x<0.94 and not in_chord and not in_div:
             b=[gen_note(r,0,False) for _ in range(r.randrange(1,4))]; b=[c for c in b if c[0]=='note'] or [('note','c',0,False,None,None,None,None,None)]
+            if r.random()<0.3:
+                # other time-moving elements inside a chord (a rest, a numbered note): the chord still advances by exactly its own length
+                extra=('rest',gen_len(r),1) if r.random()<0.6 else None
+                if extra is None:
+                    nn=gen_note(r,0,False)
+                    for _ in range(8):
+                        if nn[0]=='noteN': break
+                        nn=gen_note(r,0,False)
+                    extra=nn if nn[0]=='noteN' else ('rest',None,1)
+                b.insert(r.choice([len(b),len(b),r.randrange(0,len(b)+1)]),extra)
             L=gen_len(r)
             if L is not None and (L[0][0] or L[0][1] is None): L=((False,r.choice([1,2,4,8]),L[0][2]),L[1])
             out.append(('chord',b,L,r.choice([None,None,50,100]),r.choice([None,None,77])))
